@@ -585,6 +585,52 @@ func genC11(o *hx.Out, tier string) {
 		node.Close()
 		o.Add("raw messages ending in zeros to all channels", verdict, "expect", "ok", "raw-to-all")
 	}
+	// ---- the application reuses one message object for all its writes, changing it between two
+	// submissions while a channel still has earlier items queued: every channel gets the items as they
+	// were when they were submitted, in order ----
+	{
+		pipes := []*scn.Pipe{scn.NewPipe("u0"), scn.NewPipe("u1")}
+		node := newNode(pipes, func(nc *gomavlib.NodeConf) { nc.Dialect = d })
+		col := scn.NewCollector(node, 0, false)
+		_, ok := openChannels(col, pipes)
+		verdict := "ok"
+		if !ok {
+			verdict = "CHANNELS-NOT-OPEN"
+		} else {
+			pipes[0].BlockWrites() // channel 0 lags behind: its writer is stuck in the first write
+			const n = 12
+			m := &minimal.MessageHeartbeat{Type: 1, MavlinkVersion: 3}
+			for i := 1; i <= n; i++ {
+				m.CustomMode = uint32(i)
+				node.WriteMessageAll(m) //nolint:errcheck
+			}
+			m.CustomMode = 999
+			time.Sleep(50 * time.Millisecond)
+			pipes[0].UnblockWrites()
+			for pi, p := range pipes {
+				p.WaitWrites(func(ws [][]byte) bool { return len(ws) >= n })
+				frs, err := scn.DecodeWire(p.Writes(), drw)
+				if err != nil || len(frs) != n {
+					verdict = fmt.Sprintf("PIPE-%d-WIRE %d frames of %d: %v", pi, len(frs), n, err)
+					break
+				}
+				var got []string
+				bad := false
+				for i, fr := range frs {
+					got = append(got, strconv.Itoa(serialOf(fr)))
+					if serialOf(fr) != i+1 {
+						bad = true
+					}
+				}
+				if bad {
+					verdict = fmt.Sprintf("PIPE-%d-ITEMS-NOT-AS-SUBMITTED [%s]", pi, strings.Join(got, " "))
+					break
+				}
+			}
+		}
+		node.Close()
+		o.Add("one message object reused for every write", verdict, "expect", "ok", "message-reuse")
+	}
 	// ---- a stalled channel does not keep writes from the healthy ones ----
 	for sc := 0; sc < 4; sc++ {
 		pipes := []*scn.Pipe{scn.NewPipe("stalled"), scn.NewPipe("healthy")}
